@@ -14,7 +14,8 @@ RULE = ("explicit-state BFS over non-hardened sub-paths (alphabet {0,1,2^31-1}, 
         "the full wallet's node below the same export node and the reference; per export wallet a refusal/secrecy grid (watch_only flag, "
         "no BIP85, prv None, private-key and hardened requests raise, generate() raises, group rows end in None, object-graph scan for "
         "any private scalar/WIF/xprv of the full wallet); request histories on ONE watch-only wallet (depth 2, thorough 3). "
-        "non-trivial = state compared with full wallet and reference; distinct = distinct nodes")
+        "non-trivial = state compared with full wallet and reference; distinct = distinct nodes"
+        "; hardened requests through bulk generation on root and derived node; intermediate-corner classes (vf/corners.py) for one public step (IL, IR, parent x/y, child x/y, fingerprints) over the six public prefixes")
 
 SEEDS = ["000102030405060708090a0b0c0d0e0f", "fffcf9f6f3f0edeae7e4e1dedbd8d5d2cfccc9c6c3c0bdbab7b4b1aeaba8a5a29f9c999693908d8a8784817e7b7875726f6c696663605d5a5754514e4b484542",
          "a5" * 32, "0123456789abcdef" * 8]
